@@ -167,6 +167,9 @@ def make_case(rng, size="small", klass=None, meters=None, features=None, divs=No
                 for o in objs:
                     if isinstance(getattr(o, "staff", None), int):
                         o.staff += 9
+    if rng.random() < 0.1:
+        # the part counts in musical beats (dotted quarters in 6/8): the file still counts beats of the denominator
+        part.use_musical_beat()
     c.id_style = id_style or rng.choices(["default", "numeric", "suffixed"], [0.7, 0.15, 0.15])[0]
     rename_ids(part, c.id_style)
     c.part, c.meta, c.features = part, meta, features
